@@ -339,7 +339,7 @@ Lemmas ==
         /\ ~Activated(noAct, "", "10.2.2.254", 4)
         /\ Activated(dropFlag(noAct, "no bgp default ipv4-unicast"), "", "10.2.2.254", 4)
         /\ ~Activated(dropFlag(noAct, "no bgp default ipv4-unicast"), "", "10.2.2.254", 6)
-  (* the designed resource: a local preference of 0 listed, or a community on a prefix that did not ask for it *)
+  (* the designed resource satisfies C15 and agrees with the designed text; a text with shared lists does not agree *)
   /\ LET cr == GenCR(LS, LL, "node-a")
      IN /\ Fails15(LS, LL, cr, "node-a") = {}
         /\ Agreement(LS, LL, LOk, cr) = {}
